@@ -92,6 +92,15 @@ Definition inject (p : pattern) (mm : mmodel) : mmodel :=
        (fun a b => if p Innovation then None else mm_innovation mm a b)
        (if p NoiseCov then (false, snd (mm_noisecov mm)) else mm_noisecov mm).
 
+(* the same, but a failing getNoiseCovarianceMatrix returns the matrix [g] next to
+   its false flag (e.g. an empty matrix): what a consumer that ignores the flag then reads *)
+Definition inject_g (g : RC) (p : pattern) (mm : mmodel) : mmodel :=
+  mkMM (if p Freeze then false else mm_freeze mm)
+       (if p Measure then None else mm_measure mm)
+       (fun x => if p Predicted then None else mm_predicted mm x)
+       (fun a b => if p Innovation then None else mm_innovation mm a b)
+       (if p NoiseCov then (false, g) else mm_noisecov mm).
+
 (* result of one correction step: output object, members left behind, call log *)
 Record result (B S : Type) := mkRes { r_out : B; r_st : S; r_log : list site }.
 Arguments mkRes {B S}. Arguments r_out {B S}. Arguments r_st {B S}. Arguments r_log {B S}.
@@ -272,24 +281,27 @@ Definition lik_pair (o : option LK) : bool * LK :=
   match o with Some l => (true, l) | None => (false, lk_zero1) end.
 
 (* a LikelihoodModel: the shipped Gaussian one over the measurement model, or a
-   user-supplied one (its own validity flag; it may ignore the measurement model) *)
-Inductive likmodel := LGauss | LCustom (f : St -> option LK).
+   user-supplied one: its own validity flag and its own vector (whatever it
+   returns next to a false flag is stored in likelihood_); it may ignore the
+   measurement model *)
+Inductive likmodel := LGauss | LCustom (f : St -> bool * LK).
 
-Definition inject_lik (p : pattern) (lm : likmodel) : likmodel :=
+(* the fault-injecting double returns (false, z) *)
+Definition inject_lik (z : LK) (p : pattern) (lm : likmodel) : likmodel :=
   match lm with
   | LGauss => LGauss
-  | LCustom f => LCustom (fun s => if p Likelihood then None else f s)
+  | LCustom f => LCustom (fun s => if p Likelihood then (false, z) else f s)
   end.
 
-Definition lik_eval (lm : likmodel) (mm : mmodel) (s : St) : option LK * list site :=
+Definition lik_eval (lm : likmodel) (mm : mmodel) (s : St) : (bool * LK) * list site :=
   match lm with
-  | LGauss => gl_likelihood mm s
+  | LGauss => let '(o, l) := gl_likelihood mm s in (lik_pair o, l)
   | LCustom f => (f s, [Likelihood])
   end.
 
 (* valid_likelihood_, likelihood_ *)
 Record pf_state := mkPfSt { pf_valid : bool; pf_lik : LK }.
-Definition pf_state_of (o : option LK) : pf_state := let '(v, l) := lik_pair o in mkPfSt v l.
+Definition pf_state_of (vl : bool * LK) : pf_state := mkPfSt (fst vl) (snd vl).
 Definition pf_get_lik (st : pf_state) : bool * LK := (pf_valid st, pf_lik st).
 
 (* ------------------------------------------------------------------ *)
@@ -298,11 +310,9 @@ Definition pset := (G * St)%type.
 Variable boot_wupd : G -> LK -> G.              (* weight() += log(likelihood_ + min) *)
 
 Definition boot_step (lm : likmodel) (mm : mmodel) (pred out : pset) (st : pf_state) : result pset pf_state :=
-  let '(o, l) := lik_eval lm mm (snd pred) in
-  match o with
-  | None => mkRes pred (pf_state_of o) l                 (* cor_particles = pred_particles, nothing else *)
-  | Some lk => mkRes (boot_wupd (fst pred) lk, snd pred) (pf_state_of o) l
-  end.
+  let '(vl, l) := lik_eval lm mm (snd pred) in
+  if fst vl then mkRes (boot_wupd (fst pred) (snd vl), snd pred) (pf_state_of vl) l
+  else mkRes pred (pf_state_of vl) l.                    (* cor_particles = pred_particles, nothing else *)
 
 (* ------------------------------------------------------------------ *)
 (* GPFCorrection::correctStep.  GS: members of the wrapped Gaussian correction. *)
@@ -323,12 +333,25 @@ Definition gpf_step (gc : G -> G -> GS -> result G GS) (lm : likmodel) (mm : mmo
   let '(states, rng') := gpf_sample (g_rng st) (r_out r) (snd out) in
   let corr := (r_out r, states) in
   (* :110 *)
-  let '(o, l) := lik_eval lm mm states in
-  let st' := mkGpfSt (pf_state_of o) (r_st r) rng' in
-  match o with
-  | None => mkRes pred st' (r_log r ++ l)                 (* :112-117 corr_particles = pred_particles *)
-  | Some lk => mkRes (gpf_wupd pred lk corr, states) st' (r_log r ++ l)
-  end.
+  let '(vl, l) := lik_eval lm mm states in
+  let st' := mkGpfSt (pf_state_of vl) (r_st r) rng' in
+  if fst vl then mkRes (gpf_wupd pred (snd vl) corr, states) st' (r_log r ++ l)
+  else mkRes pred st' (r_log r ++ l).                     (* :112-117 corr_particles = pred_particles *)
+
+(* the same call with ONE object passed as predicted and as corrected set
+   (correct(p, p)): every write to the output is a write to the input.  The
+   wrapped correction's `corr = pred` and the final restore are self-assignments;
+   the states drawn at :104-107 overwrite the predicted states, and the
+   transition probability at :120 is evaluated between the new states and themselves. *)
+Definition gpf_step_aliased (gc : G -> G -> GS -> result G GS) (lm : likmodel) (mm : mmodel)
+           (pred : pset) (st : gpf_state) : result pset gpf_state :=
+  let r := gc (fst pred) (fst pred) (g_inner st) in
+  let '(states, rng') := gpf_sample (g_rng st) (r_out r) (snd pred) in
+  let both := (r_out r, states) in                 (* the one object, as both arguments see it now *)
+  let '(vl, l) := lik_eval lm mm states in
+  let st' := mkGpfSt (pf_state_of vl) (r_st r) rng' in
+  if fst vl then mkRes (gpf_wupd both (snd vl) both, states) st' (r_log r ++ l)
+  else mkRes both st' (r_log r ++ l).
 
 (* ------------------------------------------------------------------ *)
 (* SIS::filtering_step up to log() (:63-71) followed by the resampling test *)
@@ -377,4 +400,5 @@ Arguments sukf_step {G Y X YP NU RC}. Arguments sukf_get_lik {Y X YP NU RC LK}.
 Arguments gl_likelihood {St Y X YP NU RC LK}. Arguments lik_pair {LK}. Arguments inject_lik {St LK}.
 Arguments lik_eval {St Y X YP NU RC LK}. Arguments pf_state_of {LK}. Arguments pf_get_lik {LK}.
 Arguments boot_step {G St Y X YP NU RC LK}. Arguments gpf_step {G St Y X YP NU RC LK RNG} _ _ _ {GS}.
+Arguments gpf_step_aliased {G St Y X YP NU RC LK RNG} _ _ _ {GS}. Arguments inject_g {Y X YP NU RC}.
 Arguments sis_step {G St}. Arguments sis_cor_at_log {G St}.
